@@ -674,6 +674,11 @@ func (hp *HTTPProxy) isLocalhost(host string) bool {
 		host = host[:i]
 	}
 
+	// The dialler takes a missing host for the local system.
+	if host == "" {
+		return true
+	}
+
 	if slices.Contains(hp.localhost, host) {
 		return true
 	}
